@@ -708,14 +708,15 @@ impl<T> TooDee<T> {
             let suffix = p.add(num_cols);
             ptr::copy(p, suffix, len - start);
             
-            // Only iterates a maximum of `self.num_cols` times.
-            while p < suffix {
+            // Iterates exactly `num_cols` times. The elements are counted (rather than comparing
+            // `p` with `suffix`) because all pointers are equal for zero-sized types.
+            for _ in 0..num_cols {
                 if let Some(e) = iter.next() {
                     ptr::write(p, e);
                     p = p.add(1);
                 } else {
                     // panic if the iterator length is less than expected
-                    assert_eq!(p, suffix, "unexpected iterator length");
+                    panic!("unexpected iterator length");
                 }
             }
             
